@@ -152,11 +152,16 @@ pub fn class_value(ty: &str, class: &str, c: &Ctx) -> Option<Value> {
         ("ethcall", "invalidop") => json!({"to": c.contract, "data": "0x0a"}),
         ("ethcall", "burnall") => json!({"to": c.contract, "data": "0x06ff06ff06ff06ff06ff06ff06ff06ff06ff06ff06ff06ff06ff06ff06ff06ff"}),
         ("ethcall", "toprecompile1") => json!({"to": "0x0000000000000000000000000000000000000001", "data": "0x01"}),
+        ("ethcall", "fromcontract") => json!({"from": c.contract, "to": c.contract, "data": "0x01050b"}),
         ("ethcall", "toprecompile9") => json!({"to": "0x0000000000000000000000000000000000000009", "data": "0x01"}),
         ("ethcalls", "emptylist") => json!([]),
         ("ethcalls", "two") => json!([{"from": c.signer, "to": c.contract, "data": "0x01050b"}, {"from": c.signer, "to": c.contract, "data": "0x0705"}]),
         ("ethcalls", "secondfails") => json!([{"to": c.contract, "data": "0x01050b"}, {"to": c.contract, "data": "0x03"}]),
         ("ethcalls", "nodata") => json!([{"to": c.contract}]),
+        ("ethcalls", "fromcontract") => json!([{"from": c.contract, "to": c.contract, "data": "0x01050b"}]),
+        ("ethcalls", "secondfromcontract") => json!([{"from": c.signer, "to": c.contract, "data": "0x01050b"}, {"from": c.contract, "to": c.contract, "data": "0x0705"}]),
+        ("ethcalls", "precompilefail") => json!([{"from": c.signer, "to": c.contract, "data": "0x01050b"}, {"to": "0x0000000000000000000000000000000000000009", "data": "0x0102030405"}]),
+        ("ethcalls", "bigcalldata") => json!([{"from": c.signer, "to": c.contract, "data": format!("0x{}", "ab".repeat(700))}, {"from": c.signer, "data": format!("0x{}", hex::encode(crate::asm::initcode(&crate::asm::cell_runtime())))}]),
         ("ethcalls", "many") => Value::Array((0..60).map(|_| json!({"to": c.contract, "data": "0x01050b"})).collect()),
         ("precompile_data", "valid") => json!({"opReturnTxIds": [format!("0x{}", "11".repeat(32))], "bitcoinTxHexes": {}}),
         ("precompile_data", "shortids") => json!({"opReturnTxIds": [], "bitcoinTxHexes": {}}),
@@ -196,8 +201,8 @@ pub fn classes(ty: &str) -> Vec<&'static str> {
         "blocktag" => vec!["latest", "pending", "earliest", "hexnum", "decnum", "huge", "overflow", "hash", "word"],
         "bool" => vec!["true", "false", "string"],
         "filter" => vec!["empty", "reversed", "wide", "hugeto", "hugeboth", "topics5", "emptyalt", "badtopic", "badaddr"],
-        "ethcall" => vec!["valid", "nodata", "create", "input", "both", "badhex", "selfdestruct", "invalidop", "burnall", "toprecompile1", "toprecompile9"],
-        "ethcalls" => vec!["emptylist", "two", "secondfails", "nodata", "many"],
+        "ethcall" => vec!["valid", "nodata", "create", "input", "both", "badhex", "selfdestruct", "invalidop", "burnall", "toprecompile1", "toprecompile9", "fromcontract"],
+        "ethcalls" => vec!["emptylist", "two", "secondfails", "nodata", "many", "fromcontract", "secondfromcontract", "precompilefail", "bigcalldata"],
         "precompile_data" => vec!["valid", "shortids", "badtx", "missingfield"],
         _ => vec![],
     };
@@ -299,17 +304,26 @@ fn request_for(method: &str, case: &Value, ctx: &Ctx) -> Option<String> {
     }
     let params: Value = if sch.is_empty() {
         json!([])
-    } else {
-        let mut obj = serde_json::Map::new();
-        if let Some(o) = valid.as_object() {
-            obj = o.clone();
-        } else if let Some(a) = valid.as_array() {
-            for (i, (name, _)) in sch.iter().enumerate() {
-                if let Some(x) = a.get(i) {
-                    obj.insert(name.to_string(), x.clone());
+    } else if let Some(a) = valid.as_array() {
+        // positional parameters: the one under test replaced (or dropped), the others well-formed
+        let (_, ty) = sch[pi.min(sch.len() - 1)];
+        let mut arr = a.clone();
+        while arr.len() <= pi {
+            arr.push(Value::Null);
+        }
+        match class_value(ty, class, ctx) {
+            Some(v) => arr[pi] = v,
+            None => {
+                if pi + 1 == arr.len() {
+                    arr.pop();
+                } else {
+                    arr[pi] = Value::Null;
                 }
             }
         }
+        Value::Array(arr)
+    } else {
+        let mut obj = valid.as_object().cloned().unwrap_or_default();
         let (name, ty) = sch[pi.min(sch.len() - 1)];
         if ty == "b64" {
             // the base64 field is only looked at when the hex field is absent
